@@ -11,7 +11,18 @@ void rec_reset(void) { rec_n = 0; rec_bad_ctx = 0; }
  * byte string (tag 24, COSE payloads) from inside its byte-string callback. The outer call must not notice. */
 int rec_reenter;
 uint64_t rec_reentered_calls;
+int rec_deep_target, rec_deep_level, rec_deep_ok, rec_deep_first_bad;
 static void rec(void* ctx, int slot, uint64_t arg, const uint8_t* p, uint64_t len) {
+  if (rec_deep_target) {
+    /* recursive descent: the callback for an array head decodes the next head itself, and so on, rec_deep_target levels deep */
+    if (rec_deep_level < rec_deep_target) {
+      static const uint8_t nested[2] = {0x81, 0x00};
+      rec_deep_level++;
+      struct cbor_decoder_result r = cbor_stream_decode(nested, 2, &rec_table, ctx);
+      rec_deep_level--;
+      if (r.status == CBOR_DECODER_FINISHED && r.read == 1) rec_deep_ok++; else if (!rec_deep_first_bad) rec_deep_first_bad = rec_deep_level + 1;
+    }
+  }
   if (rec_reenter) {
     static const uint8_t inner[][4] = {{0x19, 0x01, 0x00, 0x00}, {0x42, 0x19, 0x01, 0x00}, {0x5a, 0x00, 0x00, 0x00}, {0x1c, 0, 0, 0}};
     static const size_t inner_n[] = {3, 3, 4, 1};
